@@ -291,7 +291,7 @@ finally:
 
 @harness(['C09'], 'supp.project.Project / supp.module.SourceModule [request - edit - request histories against a fresh project]',
          bounded='a project of 7 modules in 1 package (one star-importing a module that does not exist yet) with import, from-import, star-import and re-export edges (chain of length 4): every history '
-                 'request; edit; request  over 11 requests (2 of which fail inside the change-checking context) and 13 edits (rewrite of each module to each of its variants with a new mtime, touch), '
+                 'request; edit; request  over 11 requests (2 of which fail inside the change-checking context) and 10 edits (rewrite of each module to each of its variants with a new mtime, touch), '
                  'every history  failing request; request; edit; the same request, and 300 histories  request; edit; request; edit; request  drawn with a fixed seed')
 def edit_histories(run):
     """BOUNDED stand-in for the claim of C09 itself: after any history of edits (each with a new modification time) interleaved with requests,
